@@ -691,6 +691,11 @@ func (f *frame) loopEvalCtx(li *loopInfo, heap *HeapState, phiVal func(*ssa.Phi)
 			if ph, ok := ins.(*ssa.Phi); ok && ph.Comment == name {
 				return phiVal(ph), true
 			}
+			// `idx`: number of elements already processed by a range loop (hidden index + 1)
+			if ph, ok := ins.(*ssa.Phi); ok && name == "idx" && ph.Comment == "rangeindex" {
+				v := phiVal(ph)
+				return scalar(BVBin("bvadd", v.One(), BVInt(1, 64)), types.Typ[types.Int]), true
+			}
 		}
 		if base != nil {
 			return base(name)
@@ -710,7 +715,7 @@ func (f *frame) contractCtx(heap *HeapState) *EvalCtx {
 			ctx.Vars[n] = f.params[i]
 		}
 	}
-	ctx.Lookup = func(name string) (Val, bool) { return f.lookupLocal(name) }
+	ctx.Lookup = func(name string) (Val, bool) { return f.lookupLocal(name, heap) }
 	return ctx
 }
 
@@ -726,7 +731,7 @@ func (f *frame) paramNames() []string {
 }
 
 // lookupLocal resolves a source-level local variable name to its current SSA value.
-func (f *frame) lookupLocal(name string) (Val, bool) {
+func (f *frame) lookupLocal(name string, heap *HeapState) (Val, bool) {
 	// real parameter names
 	for i, p := range f.fn.Params {
 		if p.Name() == name {
@@ -742,6 +747,32 @@ func (f *frame) lookupLocal(name string) (Val, bool) {
 				}
 			}
 		}
+	}
+	// address-taken variables live in memory: any debug ref to their address identifies the cell
+	var cell *ssa.Alloc
+	for _, b := range f.fn.Blocks {
+		for _, ins := range b.Instrs {
+			dr, ok := ins.(*ssa.DebugRef)
+			if !ok || !dr.IsAddr {
+				continue
+			}
+			id, ok := dr.Expr.(*ast.Ident)
+			if !ok || id.Name != name {
+				continue
+			}
+			if al, ok := dr.X.(*ssa.Alloc); ok {
+				if _, have := f.vals[al]; have {
+					if cell == nil || cell.Block().Dominates(al.Block()) {
+						cell = al
+					}
+				}
+			}
+		}
+	}
+	if cell != nil {
+		v := f.val(cell)
+		pt := cell.Type().Underlying().(*types.Pointer)
+		return Val{T: f.x.H.Load(heap, f.x.locOf(v, pt.Elem())), Typ: pt.Elem()}, true
 	}
 	// debug refs: last one (in dominance order) that dominates the current block
 	var best ssa.Value
@@ -775,7 +806,7 @@ func (f *frame) lookupLocal(name string) (Val, bool) {
 		if bestAddr {
 			pt := best.Type().Underlying().(*types.Pointer)
 			loc := f.x.locOf(v, pt.Elem())
-			return Val{T: f.x.H.Load(f.cur.heap, loc), Typ: pt.Elem()}, true
+			return Val{T: f.x.H.Load(heap, loc), Typ: pt.Elem()}, true
 		}
 		return v, true
 	}
